@@ -317,6 +317,31 @@ def branch_cases(rng, tier):
                     k = net - n
                     e = "T+%d" % k if k >= 0 else "T-%d" % -k
                     yield ([" %s %s\n" % (mn, ind % e)] + filler(n) + ["T NOP\n"], {"kind": "pcr", "dir": "fwd-const", "n": n, "net": net})
+    # the same with the constant reached through an EQU symbol of either sign: label+K / label-K with K EQU +-m
+    # (the width decision and the emitted displacement must use the same signed constant)
+    for mn in (["LEAX", "LDY"] if q else pcr_mn):
+        for n in ([0, 50, 110] if q else [0, 1, 20, 50, 100, 110, 121, 126, 200]):
+            for net in (nets[::2] if q else nets):
+                for sgn in ("+", "-"):
+                    for ind in (["%s,PCR"] if q else ["%s,PCR", "[%s,PCR]"]):
+                        for fwd in (False, True):
+                            k = (net - n) if fwd else (net + n + 4)          # label + k = target
+                            kv = k if sgn == "+" else -k                      # T+K or T-K
+                            if not -32768 <= kv <= 65535:
+                                continue
+                            equ = ["K EQU %d\n" % kv]
+                            stmt = " %s %s\n" % (mn, ind % ("T%sK" % sgn))
+                            lines = equ + ([stmt] + filler(n) + ["T NOP\n"] if fwd else ["T NOP\n"] + filler(n) + [stmt])
+                            yield (lines, {"kind": "pcr", "dir": ("fwd" if fwd else "bwd") + "-equconst", "n": n, "net": net, "equ": {"K": kv}})
+    # label and constant each inside the 8-bit window, their sum outside it (and the other way round)
+    for mn in (["LEAX"] if q else pcr_mn[:4]):
+        for n in ([20, 50, 100, 120] if q else [5, 20, 50, 64, 100, 120, 125]):
+            for c in ([10, 30, 100, 127] if q else [1, 10, 30, 64, 100, 120, 127, 128]):
+                for sgn in ("+", "-"):
+                    for fwd in (False, True):
+                        stmt = " %s T%s%d,PCR\n" % (mn, sgn, c)
+                        yield ([stmt] + filler(n) + ["T NOP\n"] if fwd else ["T NOP\n"] + filler(n) + [stmt],
+                               {"kind": "pcr", "dir": ("fwd" if fwd else "bwd") + "-sum", "n": n, "c": c})
     # several undecided PCR statements whose sizes depend on each other
     for _ in range(600 if q else 20000):
         k = rng.randrange(1, 5)
@@ -409,6 +434,33 @@ def expr_cases(rng, tier):
                 else:
                     desc["may_reject"] = op in ("-", "*")
                 yield (pre + [line] + post, desc)
+    # PCR targets label+c / label-c / c+label where the distance to the label and the constant each fit a signed byte
+    # and their sum may not; the constant literal or an EQU symbol of either sign
+    for d in ([20, 50, 100, 120] if q else [0, 5, 20, 50, 64, 100, 120, 125, 200]):
+        for c in ([10, 30, 100, 127, -30, -100] if q else [1, 10, 30, 64, 100, 120, 127, 128, 200, -1, -10, -30, -100, -127, -128]):
+            for form in ("l+c", "l-c", "c+l", "l+e", "l-e", "e+l"):
+                for after in (False, True):
+                    if c < 0 and "c" in form:
+                        continue                      # a literal term cannot be negative
+                    nm = "A0" if after else "B0"
+                    org = 0x1000
+                    pre = [" ORG $%04X\n" % org] + (["V1 EQU %d\n" % c] if "e" in form else [])
+                    ct = ("equ", "V1", c) if "e" in form else ("num", c)
+                    ctxt = "V1" if "e" in form else str(c)
+                    if form[0] == "l":
+                        terms, op, etxt = [("label", nm), ct], form[1], nm + form[1] + ctxt
+                    else:
+                        terms, op, etxt = [ct, ("label", nm)], "+", ctxt + "+" + nm
+                    label_addr = {}
+                    if after:
+                        lines = pre + [" LEAX %s,PCR\n" % etxt] + filler(d) + ["A0 NOP\n"]
+                        k = len(pre)
+                    else:
+                        label_addr["B0"] = org
+                        lines = pre + ["B0 NOP\n"] + filler(d) + [" LEAX %s,PCR\n" % etxt]
+                        k = len(lines) - 1
+                    yield (lines, {"kind": "expr", "pos": "pcr", "terms": terms, "op": op, "stmt": k, "etxt": etxt, "label_addr": label_addr,
+                                   "has_label": True, "kinds": ("pcr-sum", form), "may_reject": False})
     # order independence: the same EQU symbol defined before and after its use
     for _ in range(40 if q else 600):
         v = rng.choice(nums)
@@ -483,6 +535,12 @@ def data_cases(rng, tier):
     for ln in [" ORG $1000\n", "V EQU 5\n", " SETDP 0\n", " SETDP $10\n", " NAM TEST\n", " END\n", " END START\n", " END $1000\n", "X1 SET 5\n"]:
         yield ([ln, "START NOP\n"] if "START" in ln else [ln], {"kind": "nobytes", "stmt": 0, "bytes": ""})
     yield ([" INCLUDE other.asm\n"], {"kind": "nobytes", "stmt": 0, "bytes": "", "files": {"other.asm": []}})
+    # an EQU of a number, a symbol, constant arithmetic, a label, label arithmetic (label before or after): no bytes for
+    # the EQU, and the image is exactly what the other statements emit
+    for e in ["5", "$1234", "V", "V+1", "5*3", "L", "L+1", "L-1", "1+L", "L*2", "L2", "L2+1", "L2-L", "L+V", "L2-1"]:
+        for tail in ([], [" LDX #X\n"]):
+            lines = [" ORG $1000\n", "L NOP\n", "V EQU 5\n", "X EQU %s\n" % e, "L2 RTS\n"] + tail
+            yield (lines, {"kind": "nobytes", "stmt": 3, "bytes": "", "image_prefix": "1239"})
 
 
 # ------------------------------------------------------------------------------------------------
